@@ -4,7 +4,7 @@
    exception.  The model is evaluated here by vm_compute and compared with rope's result. *)
 From Coq Require Import List NArith Bool String Ascii.
 From RopeVerif.Lib Require Import Text.
-From RopeVerif.C08 Require Import Template.
+From RopeVerif.C08 Require Import Template Fragment.
 Import ListNotations.
 Local Open Scope N_scope.
 
@@ -18,7 +18,6 @@ Fixpoint T (s : string) : text :=
 (* short forms used by the generated case files *)
 Definition F (a b c d : bool) : flags :=
   {| f_eat_parens := a; f_eat_spaces := b; f_joined := c; f_nofmt := d |}.
-Definition F0 : flags := F false false false false.
 Definition K (s : string) : item := ITok (T s).
 Definition P (s : string) : pchild := PT (T s).
 
@@ -39,7 +38,8 @@ Record case := {
   k_opt : options;           (* version of the two repaired places the model is run with (options_current) *)
   k_src : text;
   k_tree : tnode;
-  k_rope : result pnode      (* rope: annotated tree, or Err code of the exception it raised *)
+  k_rope : result pnode;     (* rope: annotated tree, or Err code of the exception it raised *)
+  k_ast : option ast         (* CPython's ast, when every node belongs to the transcribed template table *)
 }.
 
 (* boolean forms of the conclusions of the theorems, evaluated on every case whose hypotheses hold:
@@ -70,11 +70,20 @@ Definition theorems_ok (src : text) (p : pnode) : bool :=
   (if N.leb (N.of_nat (List.length src)) 3000 then forallb (region_ok src) (subnodes p) else true)
   && nested_ok p && text_eqb (write p) src.
 
+(* the captured template tree is the transcribed table applied to CPython's ast *)
+Definition template_ok (c : case) : bool :=
+  match k_ast c with
+  | None => true
+  | Some a => tshape_eqb (template_of a) (k_tree c)
+  end.
+
+(* 7 the template tree the walker built differs from [template_of] of the ast (table core only) *)
 (* 0 agree; 1 both succeed, trees differ; 2 model fails, rope succeeds; 3 model succeeds, rope raises;
    4 both fail with different kinds; 5 a proved conclusion is false on this case (cannot happen);
    6 the model stopped at E_rfind: rfind_token returned None inside _handle_parens and the code goes on with
      start = None, a continuation that is not modelled (the harness requires an oracle failure on such a case) *)
 Definition run_case (c : case) : N :=
+  if negb (template_ok c) then 7 else
   match patch_opt (k_opt c) (k_src c) (k_tree c), k_rope c with
   | Ok p, Ok q =>
       if negb (pnode_eqb p q) then 1
@@ -101,6 +110,9 @@ Definition count_domain (cs : list case) : N :=
   N.of_nat (List.length (filter (fun c => in_domain (k_opt c) (k_src c) (k_tree c)) cs)).
 
 (* for diagnosis: the model's result *)
+Definition count_table (cs : list case) : N :=
+  N.of_nat (List.length (filter (fun c => match k_ast c with Some _ => true | None => false end) cs)).
+
 Definition model_of (c : case) : result pnode := patch_opt (k_opt c) (k_src c) (k_tree c).
 Definition O0 : options := options_original.
 Definition OC : options := options_current.
